@@ -61,6 +61,7 @@ type SCall struct {
 	Fn   *types.Func
 	Args []Sum // receiver first
 	Pos  token.Pos
+	ResT types.Type // the call's result type at this site (the instantiation of a generic callee's)
 }
 type SCmp struct {
 	Neg  bool
@@ -93,6 +94,27 @@ type SArith struct {
 	A, B Sum
 }
 
+// STuple is what a multi-result function returns; SProj is component I of such a result.
+type STuple struct{ Elems []Sum }
+type SProj struct {
+	X Sum
+	I int
+}
+
+// SField is X.F for a struct value X (a row of a table of structs).
+type SField struct {
+	X Sum
+	F *types.Var
+}
+
+// SStruct is a struct literal T{...} written in a function body.
+type SStruct struct {
+	T      *types.Struct
+	Typ    types.Type
+	Fields []*types.Var
+	Vals   []Sum
+}
+
 // SConv is an integer-to-integer conversion T(X) that keeps the number.
 type SConv struct {
 	X Sum
@@ -118,6 +140,10 @@ func (SLen) sum()    {}
 func (SOrd) sum()    {}
 func (SArith) sum()  {}
 func (SConv) sum()   {}
+func (SField) sum()  {}
+func (STuple) sum()  {}
+func (SProj) sum()   {}
+func (SStruct) sum() {}
 
 // sumKey identifies a summary: the function and, for a specialisation, which parameters are which tables.
 type sumKey struct {
@@ -200,8 +226,8 @@ func (f *Facts) summarise(fn *types.Func, bound map[int]*Table) *Summary {
 		return s
 	}
 	sig := fn.Type().(*types.Signature)
-	if sig.Results().Len() != 1 {
-		s.Err = "not a single-result function"
+	if sig.Results().Len() < 1 {
+		s.Err = "a function without a result"
 		s.ErrPos = decl.Pos()
 		f.sums[key] = s
 		return s
@@ -265,8 +291,15 @@ func (tr *translator) stmts(list []ast.Stmt, e env) Sum {
 	st, rest := list[0], list[1:]
 	switch s := st.(type) {
 	case *ast.ReturnStmt:
-		if len(s.Results) != 1 {
-			tr.fail(s.Pos(), "return with %d results", len(s.Results))
+		if len(s.Results) == 0 {
+			tr.fail(s.Pos(), "bare return")
+		}
+		if len(s.Results) > 1 {
+			var t STuple
+			for _, r := range s.Results {
+				t.Elems = append(t.Elems, tr.expr(r, e))
+			}
+			return t
 		}
 		return tr.expr(s.Results[0], e)
 	case *ast.BlockStmt:
@@ -527,6 +560,18 @@ func (tr *translator) assign(s *ast.AssignStmt, e env) env {
 			tr.fail(x.Pos(), "assignment to a package-level variable or field")
 		}
 		return v
+	}
+	if len(s.Lhs) >= 2 && len(s.Rhs) == 1 {
+		if call, isCall := ast.Unparen(s.Rhs[0]).(*ast.CallExpr); isCall {
+			// x, y := f(...)  for a summarised multi-result function
+			m := tr.expr(call, e)
+			for i, l := range s.Lhs {
+				if v := lhsVar(l); v != nil {
+					e[v] = SProj{X: m, I: i}
+				}
+			}
+			return e
+		}
 	}
 	if len(s.Lhs) == 2 && len(s.Rhs) == 1 {
 		ix, ok := ast.Unparen(s.Rhs[0]).(*ast.IndexExpr)
@@ -869,6 +914,11 @@ func (tr *translator) expr(x ast.Expr, e env) Sum {
 		tr.fail(n.Pos(), "identifier %s is outside the fragment", n.Name)
 	case *ast.SelectorExpr:
 		if sel := tr.info.Selections[n]; sel != nil {
+			if fv, ok := sel.Obj().(*types.Var); ok && sel.Kind() == types.FieldVal && len(sel.Index()) == 1 {
+				if st, isStruct := tr.info.TypeOf(n.X).Underlying().(*types.Struct); isStruct && dataStruct(st) {
+					return SField{X: tr.expr(n.X, e), F: fv}
+				}
+			}
 			tr.fail(n.Pos(), "field or method value %s is outside the fragment", n.Sel.Name)
 		}
 		if o, ok := tr.info.Uses[n.Sel].(*types.Var); ok {
@@ -980,7 +1030,30 @@ func (tr *translator) expr(x ast.Expr, e env) Sum {
 		for _, a := range n.Args {
 			args = append(args, tr.expr(a, e))
 		}
-		return SCall{Fn: callee, Args: args, Pos: n.Pos()}
+		return SCall{Fn: callee, Args: args, Pos: n.Pos(), ResT: tr.info.TypeOf(n)}
+	}
+	if cl, ok := x.(*ast.CompositeLit); ok {
+		if st, isStruct := tr.info.TypeOf(cl).Underlying().(*types.Struct); isStruct && dataStruct(st) {
+			out := SStruct{T: st, Typ: tr.info.TypeOf(cl)}
+			for i, el := range cl.Elts {
+				var fv *types.Var
+				val := el
+				if kv, ok := el.(*ast.KeyValueExpr); ok {
+					if id, ok := kv.Key.(*ast.Ident); ok {
+						fv, _ = tr.info.Uses[id].(*types.Var)
+					}
+					val = kv.Value
+				} else if i < st.NumFields() {
+					fv = st.Field(i)
+				}
+				if fv == nil {
+					tr.fail(el.Pos(), "struct literal element without a resolvable field")
+				}
+				out.Fields = append(out.Fields, fv)
+				out.Vals = append(out.Vals, tr.expr(val, e))
+			}
+			return out
+		}
 	}
 	tr.fail(x.Pos(), "expression form %T is outside the fragment", x)
 	return nil
@@ -1217,7 +1290,12 @@ func (f *Facts) eval(s Sum, b map[*types.Var]Value) Value {
 				return args[i]
 			}
 		}
-		return f.Eval(x.Fn, args...)
+		r := f.Eval(x.Fn, args...)
+		if c, ok := numOf(r); ok && r.Kind == VConst && x.ResT != nil && f.EnumOf(x.ResT) != nil {
+			// a generic helper returns T(i): the number as a value of the enumeration this call instantiates T with
+			return f.intValue(c, x.ResT)
+		}
+		return r
 	case SLen:
 		if v := f.eval(x.M, b); v.Kind == VConst && v.C != nil && v.C.Kind() == constant.String {
 			return Value{Kind: VConst, C: constant.MakeInt64(int64(len(constant.StringVal(v.C)))), Type: types.Typ[types.Int]}
@@ -1266,6 +1344,14 @@ func (f *Facts) eval(s Sum, b map[*types.Var]Value) Value {
 		}
 		ac, aok := numOf(av)
 		bc, bok := numOf(bv)
+		// the abstract "any other value" (a number above every number the program mentions) stays one when a
+		// mentioned number is added to or taken from it
+		if av.Kind == VOther && av.C == nil && bok && (x.Op == token.ADD || x.Op == token.SUB) {
+			return Value{Kind: VOther, Type: av.Type}
+		}
+		if bv.Kind == VOther && bv.C == nil && aok && x.Op == token.ADD {
+			return Value{Kind: VOther, Type: bv.Type}
+		}
 		if !aok || !bok {
 			return Value{Kind: VInvalid, Why: fmt.Sprintf("arithmetic on %s and %s", av, bv)}
 		}
@@ -1283,6 +1369,46 @@ func (f *Facts) eval(s Sum, b map[*types.Var]Value) Value {
 			return Value{Kind: VInvalid, Why: "arithmetic result outside the modelled range"}
 		}
 		return f.intValue(r, av.Type)
+	case STuple:
+		out := Value{Kind: VTuple}
+		for _, el := range x.Elems {
+			v := f.eval(el, b)
+			if v.Kind == VInvalid || v.Kind == VAmbiguous {
+				return v
+			}
+			out.Elems = append(out.Elems, v)
+		}
+		return out
+	case SProj:
+		v := f.eval(x.X, b)
+		if v.Kind == VTuple && x.I < len(v.Elems) {
+			return v.Elems[x.I]
+		}
+		if v.Kind == VInvalid || v.Kind == VAmbiguous {
+			return v
+		}
+		return Value{Kind: VInvalid, Why: "component of " + v.String()}
+	case SField:
+		v := f.eval(x.X, b)
+		switch v.Kind {
+		case VTable:
+			if v.T != nil && v.T.Struct != nil {
+				return f.Field(v.T, x.F)
+			}
+		case VInvalid, VAmbiguous:
+			return v
+		}
+		return Value{Kind: VInvalid, Why: "field " + x.F.Name() + " of " + v.String()}
+	case SStruct:
+		row := &Table{Name: "literal " + x.Typ.String(), KeyT: types.Typ[types.String], Struct: x.T}
+		for i, fv := range x.Fields {
+			v := f.eval(x.Vals[i], b)
+			if v.Kind == VInvalid || v.Kind == VAmbiguous {
+				return v
+			}
+			row.Entries = append(row.Entries, &Entry{Key: StringValue(fv.Name()), Val: v})
+		}
+		return Value{Kind: VTable, T: row, Type: x.Typ}
 	case SConv:
 		v := f.eval(x.X, b)
 		if c, ok := numOf(v); ok && !x.Same && !fitsKind(c, x.T) {
@@ -1451,6 +1577,18 @@ func (f *Facts) TablesRead(fn *types.Func) map[*Table]bool {
 			walkSum(x.B)
 		case SConv:
 			walkSum(x.X)
+		case SField:
+			walkSum(x.X)
+		case STuple:
+			for _, v := range x.Elems {
+				walkSum(v)
+			}
+		case SProj:
+			walkSum(x.X)
+		case SStruct:
+			for _, v := range x.Vals {
+				walkSum(v)
+			}
 		case SNot:
 			walkSum(x.X)
 		case SBin:
@@ -1526,6 +1664,18 @@ func (f *Facts) StringConsts(fn *types.Func) map[string]bool {
 			walkSum(x.B)
 		case SConv:
 			walkSum(x.X)
+		case SField:
+			walkSum(x.X)
+		case STuple:
+			for _, v := range x.Elems {
+				walkSum(v)
+			}
+		case SProj:
+			walkSum(x.X)
+		case SStruct:
+			for _, v := range x.Vals {
+				walkSum(v)
+			}
 		case SNot:
 			walkSum(x.X)
 		case SBin:
